@@ -25,6 +25,10 @@ import (
 //	star/xstar received message -> forwarded by the socket to every other peer once
 //	star  re-send (cooked)      -> a new message of this member: every peer once
 //	bus/xbus received message   -> never forwarded by the socket itself
+//	bus/star originated with SendMsg in a message that still carries a protocol header (a stale
+//	  one: the id of one of the socket's own pipes, pipe id + request id, other bytes)
+//	                            -> a message of this member like any other: every peer once, and
+//	                               the caller's header is not transmitted
 //
 // For STAR only the part after the 4-byte hop header is compared (hop counting is C09).
 func c08VT(c *mon.Case, sp c08Spec) {
@@ -50,6 +54,14 @@ func c08VT(c *mon.Case, sp c08Spec) {
 		}
 	}
 	cursor := make([]int, n)
+	var ownIDs []uint32 // ids of the socket's pipes, in connection order
+	for _, p := range w.Pipes() {
+		ownIDs = append(ownIDs, p.ID())
+	}
+	if len(ownIDs) != n {
+		c.Inconclusive("setup: %d pipes attached, %d connected", len(ownIDs), n)
+		return
+	}
 	nonce := make([]byte, 6)
 	c.Rand.Read(nonce)
 	serial := 0
@@ -68,7 +80,13 @@ func c08VT(c *mon.Case, sp c08Spec) {
 		}
 		return wire[4:], true
 	}
-	originate := func(b []byte) error {
+	originate := func(b []byte, hdr []byte) error {
+		if hdr != nil {
+			m := mangos.NewMessage(len(b))
+			m.Header = append(m.Header, hdr...)
+			m.Body = append(m.Body, b...)
+			return s.SendMsg(m)
+		}
 		if star && raw {
 			m := mangos.NewMessage(len(b))
 			m.Header = append(m.Header, 0, 0, 0, 0)
@@ -78,11 +96,12 @@ func c08VT(c *mon.Case, sp c08Spec) {
 		return s.Send(b)
 	}
 	shape := ""
-	nInj, nFwdChecked, nOrig, nResend, nEmpty := 0, 0, 0, 0, 0
+	nInj, nFwdChecked, nOrig, nResend, nEmpty, nHdr, nHdrOwn := 0, 0, 0, 0, 0, 0, 0
 
 	for step := 0; step < sp.Steps && !c.Failed(); step++ {
 		expect := make([]map[string]int, n) // per pipe: body -> transmissions expected in this step
 		src := map[string]int{}             // body -> pipe it was injected on
+		hdrOf := map[string][]byte{}        // body -> stale header it was originated with
 		for i := range expect {
 			expect[i] = map[string]int{}
 		}
@@ -164,7 +183,19 @@ func c08VT(c *mon.Case, sp c08Spec) {
 			for q := 0; q < n; q++ {
 				expect[q][string(b)]++
 			}
-			if err := originate(b); err != nil {
+			var hdr []byte
+			if !raw && j < norig && c.Rand.Intn(2) == 0 { // cooked sockets; the sentinel goes out plain
+				var own bool
+				hdr, own = c08StaleHeader(c.Rand, ownIDs)
+				hdrOf[string(b)] = hdr
+				nHdr++
+				if own {
+					nHdrOwn++
+				}
+				shape += "h"
+				c.Logf("step %d originate %q with stale header %x", step, b[:min(12, len(b))], hdr)
+			}
+			if err := originate(b, hdr); err != nil {
 				c.Inconclusive("Send: %v", err)
 				return
 			}
@@ -226,6 +257,19 @@ func c08VT(c *mon.Case, sp c08Spec) {
 					continue
 				}
 				p, injected := src[b]
+				if e == 0 && !injected {
+					leaked := false
+					for hb, h := range hdrOf {
+						if len(b) > len(hb) && strings.HasSuffix(b, hb) {
+							c.Violate(pre+"/stale-header-transmitted", "step %d: pipe %d carried %x: the body the application sent with SendMsg in a message whose Header was %x, with %d more byte(s) in front; a cooked %s send does not transmit the caller's header", step, q, e2wire(seg, b, strip), h, len(b)-len(hb), sock)
+							leaked = true
+							break
+						}
+					}
+					if leaked {
+						continue
+					}
+				}
 				switch {
 				case injected && p == q && e == 0:
 					c.Violate(pre+"/echo-to-source", "step %d: the message that arrived on pipe %d was transmitted back on that same pipe (%d time(s)); %d peers", step, q, g, n)
@@ -240,6 +284,18 @@ func c08VT(c *mon.Case, sp c08Spec) {
 				}
 			}
 			for b, e := range expect[q] {
+				if h := hdrOf[b]; h != nil && e > 0 && got[b] == 0 {
+					leaked := false
+					for gb := range got {
+						if len(gb) > len(b) && strings.HasSuffix(gb, b) {
+							leaked = true // reported above
+						}
+					}
+					if !leaked {
+						c.Violate(pre+"/sent-with-stale-header-missing", "step %d: pipe %d (id %x) never carried, before the sentinel, the message the application sent with SendMsg in a message whose Header was %x (ids of the socket's pipes: %x; %d peers). A cooked %s send ignores the caller's header — the header does not select who gets the message", step, q, ownIDs[q], h, ownIDs, n, sock)
+					}
+					continue
+				}
 				if e > 0 && got[b] == 0 {
 					what := "originated message"
 					if p, ok := src[b]; ok {
@@ -254,10 +310,22 @@ func c08VT(c *mon.Case, sp c08Spec) {
 	c.Count("vt_injected_empty_body", nEmpty)
 	c.Count("vt_resent_by_application", nResend)
 	c.Count("vt_originated", nOrig)
+	c.Count("vt_originated_carrying_a_stale_header", nHdr)
+	c.Count("vt_originated_whose_stale_header_is_an_own_pipe_id", nHdrOwn)
 	c.Count("vt_transmissions_compared", nFwdChecked)
 	c.Count("cases_vt_"+sock, 1)
 	if nFwdChecked > 0 && n >= 2 && nInj > 0 && !c.Failed() {
 		c.Nontrivial()
 	}
 	c.Sig("vt|%s|%d|%s", sock, n, shape)
+}
+
+// e2wire returns the full transmission of the segment whose compared part is b.
+func e2wire(seg []vt.Sent, b string, strip func([]byte) ([]byte, bool)) []byte {
+	for _, e := range seg {
+		if x, ok := strip(e.Wire()); ok && string(x) == b {
+			return e.Wire()
+		}
+	}
+	return []byte(b)
 }
